@@ -297,6 +297,14 @@ func (im *Impl) Exec(line string) string {
 			}
 			im.C.CS.VerifHandleMsg(&pbft.VoteMessage{Vote: v}, kv["peer"])
 			return im.Digest()
+		case "maj23":
+			// a VoteSetMaj23 message as the reactor's Receive handles it: for the node's height only,
+			// straight to the height vote set (not through the consensus queue, not logged)
+			rs := im.C.CS.GetRoundState()
+			if Atoi(kv["h"]) == rs.Height {
+				rs.Votes.SetPeerMaj23(Atoi(kv["r"]), byte(Atoi(kv["t"])), kv["peer"], im.Bid(kv["block"]))
+			}
+			return im.Digest()
 		case "timeout":
 			im.C.CS.VerifHandleTimeout(Atoi(w[1]), Atoi(w[2]), stepByName[w[3]])
 			return im.Digest()
